@@ -61,6 +61,9 @@ def gen_scenarios(seed, tier):
         if i % 8 == 3:
             yield gen_two_completions(rng, i)
             continue
+        if i % 16 == 7:
+            yield gen_refused_then_foreign(rng, i)
+            continue
         kind = KINDS[i % 5] if i % 6 < 5 else "map"
         if i % 12 == 11:
             kind = "timeout"
@@ -228,15 +231,56 @@ def cfwait_monitor(s, ctx):
     return hits
 
 
+def gen_refused_then_foreign(rng, i):
+    """a two-step history on one future, no race needed: the user's cancel() is REFUSED by the work underneath (the poll layer's
+    cancel function says no), and later that work is cancelled by somebody else (the cancel-on-shutdown layer in between sweeps it,
+    and now the cancel function says yes): the future above must end cancelled - release result()/wait() callers, run its callbacks -
+    exactly as if the refused cancel() had never been attempted"""
+    top = rng.choice(["map", "map", "flat_map", "timeout", "retry", "throttle"])
+    lay = sc.gen_layer(rng, top)
+    if top == "throttle":
+        lay[1].update(block=False, count=rng.choice([1, 2, None]))
+    if top == "retry":
+        lay = ["retry", {"max_attempts": 2, "sleep": 1.0, "exponent": 1.0, "max_sleep": 3.0, "exception_base": ["E0"]}]
+    if top == "timeout":
+        lay = ["timeout", {"timeout": 50.0}]
+    if top in ("map", "flat_map"):
+        lay = [top, {"fn": True, "errfn": False, "script": [[["retarg"]]], "escript": [[["reraise"]]]}]
+    poll = ["poll", {"poll_script": ["none"], "interval": 5.0, "cancel_fn": True, "cancel_script": [[["ret", False]], [["ret", True]]]}]
+    layers = [poll, ["cancel_on_shutdown", {}], lay]
+    c0 = [["submit", "k0", [[["ret", 7]]]], ["addcb", "k0", "plain"], ["sleep", 1.0], ["cancel", "k0"]]
+    if rng.random() < 0.5:
+        c0.append(["addcb", "k0", "plain"])
+    c0 += [["sleep", 1.0], ["shutdown", False], ["sleep", 1.0], ["addcb", "k0", "plain"]]
+    clients = [c0]
+    if rng.random() < 0.5:
+        clients.append([["sleep", 3.0], ["cfwait", "k0", 5.0, rng.choice(["wait", "as_completed"])]])
+    d = dict(kind="stack", idx=i, base=rng.choice(["simpool1", "simpool2", "simsync"]), layers=layers, clients=clients, tail=10.0,
+             seed=rng.randrange(1 << 30), family="refused-then-foreign")
+    d.update(schedule_modes(rng))
+    return d
+
+
 def run_one(desc):
     if desc.get("kind") == "comb":
         return run_comb(desc)
     s, ctx, out = sc.run_stack(desc, props=("C02", "C18"))
     hits = list(out.get("C02", [])) + cfwait_monitor(s, ctx)
+    if desc.get("family") == "refused-then-foreign" and ctx.completed:
+        f = ctx.futs.get("k0")
+        swept = any(e[1] == "fcancel<" and e[3] is True and len(e) > 2 for e in s.log)
+        if f is not None and swept and not f.done():
+            hits.append(hit("C02/pending-after-foreign-cancel", "the work under future k0 was cancelled by the shutdown sweep (after the user's "
+                            "own cancel() had been refused) but the future is still pending: result()/wait() callers are never released and its "
+                            "callbacks never run; layers %r" % [l[0] for l in desc["layers"]]))
     hits += [h for h in out.get("C18", []) if h["sig"].startswith("C18/escaped")]
     blocks, verd = [], []
     if s.end_reason == "limit":
         verd.append("INCONCLUSIVE 0 yield limit")
+    elif desc.get("family") == "refused-then-foreign":
+        # (three layers: the per-future projection is written for single-layer programs; this family is decided by its monitors)
+        if ctx.completed and not hits:
+            verd.append("OK 1 1")
     else:
         try:
             blocks = proj.project_all(s.log, desc)
